@@ -1,15 +1,57 @@
 (** C12 — Alignment finds the optimal proper rigid motion and recovers known ones.
     Property theorems only.  [genF]/[genU] (Gen/Quat.v) are regenerated from the F[i,j] = ... and U[i,j] = ...
-    assignments of qcelemental.molutil.align.kabsch_quaternion on every run; Model/Kabsch.v models
-    kabsch_align (weight=None) and the candidate loop of B787; LAPACK's eigh enters only through the
+    assignments of qcelemental.molutil.align.kabsch_quaternion on every run, [gen_kabsch_align] (Gen/KabschAlign.v)
+    from the body of kabsch_align; Model/Kabsch.v models kabsch_align (weight=None) and the candidate loop of B787,
+    Model/KabschPerm.v the 'permutative' candidate generator, Model/KabschDriver.v their composition (the whole
+    B787 driver for algorithm='permutative'); LAPACK's eigh enters only through the
     hypothesis [eigh_spec] / [eigtop_ok] (F V = V diag(w), V^T V = V V^T = I, w ascending), which the
     correspondence evaluates on what LAPACK actually returned.
-    [residual Rs Cs q] = sum_k |r_k - c_k . U(q)|^2  (row vectors, as the code's C.dot(RR)). *)
+    [residual Rs Cs q] = sum_k |r_k - c_k . U(q)|^2  (row vectors, as the code's C.dot(RR)).
+
+    CLAUSE MAP (statement of C12 in properties.jsonl, clause by clause):
+    (a) "returns a proper rotation (orthogonal, determinant +1)":  C12_U_gram, C12_U_det, C12_U_proper (against the
+        translated U); C12_kabsch_align_rotation_always_proper (kabsch_align, short-cut path included);
+        weighted: C12_weighted_kabsch_align_optimal.
+    (b) "a shift, and an RMSD that equals the RMSD actually obtained by applying them":
+        C12_reported_rmsd_is_applied_rmsd (kabsch_align vs the AlignmentMill B787 builds, any ordering);
+        C12_kabsch_align_shortcut (on the allclose short-cut the recipe is the identity, reported 0, and the
+        geometries differ by at most the allclose tolerance - the only case where reported and applied differ);
+        driver: C12_selected_solution_attains_reported_rmsd (the solution B787 holds is one of its trials and
+        best_rmsd is that trial's RMSD), restated for the composed driver in C12_driver_recovers_shuffled_rigid_copy.
+    (c) "not larger than that of any other proper rotation about the centroids":  C12_residual_identity,
+        C12_top_eigvec_optimal, C12_kabsch_optimal_over_quaternions, C12_kabsch_minimum_value,
+        C12_every_proper_rotation_is_U, C12_kabsch_optimal_over_proper_rotations,
+        C12_kabsch_align_proper_and_optimal; over the trials of the driver: C12_selected_rmsd_is_minimal,
+        C12_selected_rmsd_is_minimal_or_converged (any run_to_completion / mols_align setting).
+    (d) "translated, rotated ... copy: RMSD zero, maps it back atom by atom, ... for non-collinear molecules the
+        rotation and shift are those that were applied":  C12_recovers_rigid_copy (fixed atom map, ANY proper
+        rotation and shift).
+    (e) "... and (for the permutation search) atom-shuffled copy ... with elements matching":
+        C12_candidates_are_label_preserving_permutations, C12_true_ordering_is_a_candidate,
+        C12_rigid_motion_preserves_distances, and the end-to-end C12_driver_recovers_shuffled_rigid_copy (whole
+        'permutative' driver: RMSD is that of a zero residual, returned map is a label-preserving permutation,
+        the returned recipe applied to the copy gives the reference atom by atom - the last under the stated
+        "RMSD 0 only for residual 0" hypothesis, i.e. up to the rounding to 8 decimals).
+        With a symmetry-equivalent atom map another rotation is equally exact: "the applied rotation" is claimed
+        for the fixed map only (d); for the search only correspondence/oracle.
+    (f) "Mirror images are matched only when mirror matching is requested":  C12_mirror_only_on_request (selection
+        loop), restated for the composed driver in C12_driver_recovers_shuffled_rigid_copy (mirror flag false
+        unless run_mirror and not superimposable).  That a proper rotation cannot superimpose a chiral molecule on
+        its mirror image is the definition of chirality: only oracle (chiral molecules vs mirror images).
+    (g) errors:  C12_no_solution_only_if_no_trial_below_100, C12_driver_errors (ValidationError / the AttributeError
+        of an empty search only).
+    (h) model = code:  C12_translated_kabsch_align_is_model (generated from the source); F/U are used directly from
+        Gen/Quat.v; selection loop, candidate generator, applied residual: correspondence at K = Q.
+    (i) the scramble generator (anchored mechanism):  C12_random_rotation_is_proper, C12_random_rotation_domain,
+        C12_random_rotation_no_deflection (against the translated matrix algebra of random_rotation_matrix).
+    Only correspondence/oracle: Molecule.align / Molecule.scramble wrappers, compute_scramble,
+    algorithm='hungarian_uno' (needs networkx; solver covered by C14). *)
 From Coq Require Import List Arith Lia Lra Reals Bool QArith.
 Open Scope bool_scope.
 Require Import QV.Common.Outcome QV.Common.AlignAlg QV.Common.AlignAlgFacts QV.Common.AlignAlgQuat QV.Common.AlignAlgR
                QV.Gen.Quat QV.Model.Mill QV.Model.Kabsch QV.Proofs.Mill QV.Proofs.Kabsch QV.Proofs.KabschR QV.Proofs.KabschSurj
-               QV.Model.KabschPerm QV.Proofs.KabschPerm QV.Gen.KabschAlign QV.Proofs.KabschGen.
+               QV.Model.KabschPerm QV.Proofs.KabschPerm QV.Gen.KabschAlign QV.Proofs.KabschGen
+               QV.Model.KabschDriver QV.Proofs.KabschDriver QV.Model.Rand3dRot QV.Gen.Rand3dRot QV.Proofs.Rand3dRot.
 Import ListNotations.
 
 (** U(q)^T U(q) = (|q|^2)^2 I and det U(q) = (|q|^2)^3, over any commutative ring, by [ring] against the
@@ -184,6 +226,134 @@ Theorem C12_weighted_kabsch_align_optimal :
     (k_ssd o <= residual_rot (scale_rows sw (centred (length Rg) Rg)) (scale_rows sw (centred (length Rg) Cg)) M)%R.
 Proof. exact weighted_kabsch_align_optimal. Qed.
 
+(** ---- the selection loop, continued; kabsch_align on its short-cut; the composed driver (Model/KabschDriver.v) ---- *)
+(** Whatever the settings, the solution B787 holds at the end is one of the trials it made and best_rmsd is
+    the RMSD measured for that very trial (plain or mirrored). *)
+Theorem C12_selected_solution_attains_reported_rmsd :
+  forall (K : Type) (KD : DivOps K) run_mirror superimposable rtc aconv hundred cs best i mir,
+  b787_select run_mirror superimposable rtc aconv hundred cs = Ok (best, i, mir) ->
+  exists c, nth_error cs i = Some c /\ best = (if mir then c_rmsd_m c else c_rmsd c).
+Proof. exact @b787_select_attains. Qed.
+
+(** B787 ends without a solution (hold_solution is None: AttributeError) only if no plain trial was below the
+    initial best_rmsd = 100.0 - in particular if there was no candidate ordering at all. *)
+Theorem C12_no_solution_only_if_no_trial_below_100 :
+  forall (K : Type) (KD : DivOps K) run_mirror superimposable rtc aconv hundred cs e,
+  b787_select run_mirror superimposable rtc aconv hundred cs = Err e ->
+  e = PyAttributeError /\ Forall (fun c => klt (c_rmsd c) hundred = false) cs.
+Proof. exact @b787_select_error. Qed.
+
+(** For ANY run_to_completion / convergence setting: either the loop stopped early below the convergence
+    threshold (only possible when run_to_completion is off), or the selected RMSD is a minimum over all trials. *)
+Theorem C12_selected_rmsd_is_minimal_or_converged :
+  forall (K : Type) (KD : DivOps K),
+  (forall a b : K, kleb a b = true \/ kleb b a = true) ->
+  (forall a b c : K, kleb a b = true -> kleb b c = true -> kleb a c = true) ->
+  forall run_mirror superimposable rtc aconv hundred cs best i mir,
+  b787_select run_mirror superimposable rtc aconv hundred cs = Ok (best, i, mir) ->
+  (rtc = false /\ klt best aconv = true) \/
+  Forall (fun c => kleb best (c_rmsd c) = true /\
+                   (run_mirror && negb superimposable = true -> kleb best (c_rmsd_m c) = true)) cs.
+Proof. exact @b787_best_is_min_or_converged. Qed.
+
+(** ... and the unconditional statement ("the selected RMSD is minimal whatever the settings") is FALSE of the
+    faithful model: with mols_align=True (a_convergence = 1e-3, no run_to_completion) the loop returns the first
+    trial below 1e-3 although a later trial is exact.  B787 then fails its own final checks (atol 1e-4): replayed
+    on the implementation, known finding C12-mols-align-early-exit. *)
+Theorem C12_selected_rmsd_is_minimal_with_early_exit_refuted :
+  exists (cs : list (@cand Q)) best i mir,
+    b787_select false false false (1 # 1000)%Q 100%Q cs = Ok (best, i, mir) /\
+    exists c, In c cs /\ klt (c_rmsd c) best = true.
+Proof.
+  exists [{| c_rmsd := (5 # 10000)%Q; c_rmsd_m := 0%Q |}; {| c_rmsd := 0%Q; c_rmsd_m := 0%Q |}], (5 # 10000)%Q, 0%nat, false.
+  split; [vm_compute; reflexivity|].
+  exists {| c_rmsd := 0%Q; c_rmsd_m := 0%Q |}. split; [right; left; reflexivity|vm_compute; reflexivity].
+Qed.
+
+(** On its np.allclose short-cut kabsch_align reports RMSD 0 with the identity recipe: applying it leaves
+    cgeom as it is, which differs from rgeom by at most the allclose tolerance in every coordinate. *)
+Theorem C12_kabsch_align_shortcut :
+  forall eigtop atol rtol (Rg Cg : list (vec3 R)),
+  allclose atol rtol Rg Cg = true ->
+  let o := kabsch_align eigtop atol rtol Rg Cg in
+  k_ssd o = 0%R /\ k_rot o = mid /\ k_shift o = v0 /\
+  align_coordinates (solution_mill o (seq 0 (length Cg)) false) false Cg = Ok Cg /\
+  Forall2 (vwithin atol rtol) Rg Cg.
+Proof. exact kabsch_align_shortcut. Qed.
+
+(** The rotation kabsch_align returns is proper on both of its paths. *)
+Theorem C12_kabsch_align_rotation_always_proper :
+  forall eigtop atol rtol (Rg Cg : list (vec3 R)),
+  eigtop_ok eigtop (kabsch_F Rg Cg) -> length Rg = length Cg ->
+  proper (k_rot (kabsch_align eigtop atol rtol Rg Cg)).
+Proof. exact kabsch_align_rotation_always_proper. Qed.
+
+(** END TO END for algorithm='permutative' (b787_permutative = validation + candidate generator + loop body per
+    candidate + selection).  Let cgeom be a copy of rgeom moved by ANY proper rotation Rot and shift t and with
+    its atoms shuffled ([o] is the true ordering: cgeom[o] = rgeom.Rot + t, labels and interatomic distances
+    agree along o).  Then for every run_mirror / run_to_completion / convergence setting the driver returns a
+    solution; the RMSD it reports is that of a zero residual (or, if it may stop early, below the convergence
+    threshold); the returned atom map is a permutation under which element labels match atom by atom; no mirror
+    recipe is returned unless mirror matching is on; the reported RMSD is the one obtained by applying the
+    returned recipe to cgeom; and if only a zero residual has that RMSD (true of sqrt(ssd/n), true up to 5e-9 of
+    its rounding to 8 decimals) the recipe maps cgeom onto rgeom atom by atom.
+    [rmsd_of ssd n] stands for around(sqrt(ssd) * bohr2angstroms / sqrt(n), 8): only monotonicity is used.
+    eigh is assumed correct only on the matrix of the true ordering. *)
+Theorem C12_driver_recovers_shuffled_rigid_copy :
+  forall (eigtop : mat4 R -> quat R) (katol krtol : R) (rmsd_of : R -> nat -> R) (rr cc : nat -> nat -> R) (patol prtol : R),
+  (forall x : R, kleb (kabs (ksub x x)) (kadd patol (kmul prtol (kabs x))) = true) ->
+  (forall s s' n, (0 <= s <= s')%R -> (rmsd_of s n <= rmsd_of s' n)%R) ->
+  forall run_mirror superimposable rtc (aconv hundred : R) runiq cuniq (Rg Cg : list (vec3 R)) (Rot : mat3 R) (t : vec3 R)
+         (o : list nat) L,
+  proper Rot -> (0 < length Rg)%nat ->
+  let n := length Rg in
+  let Cfull := map (fun r => vadd (vmat r Rot) t) Rg in
+  length Cg = n -> length runiq = n -> length cuniq = n ->
+  length o = n -> NoDup o -> gather Cg o = Ok Cfull ->
+  (forall j, (j < n)%nat -> nth (nth j o O) cuniq O = nth j runiq O) ->
+  (forall a b, (a < n)%nat -> (b < n)%nat -> cc (nth a o O) (nth b o O) = rr a b) ->
+  plausible_orderings rr cc patol prtol runiq cuniq = Ok L ->
+  eigtop_ok eigtop (kabsch_F Rg Cfull) -> allclose katol krtol Rg Cfull = false ->
+  (rmsd_of 0 n < hundred)%R ->
+  exists best sol T,
+    b787_permutative eigtop katol krtol rmsd_of rr cc patol prtol run_mirror superimposable rtc aconv hundred runiq cuniq Rg Cg
+      = Ok (best, sol) /\
+    (best = rmsd_of 0 n \/ (rtc = false /\ (best < aconv)%R)) /\
+    (length (amap sol) = n /\ NoDup (amap sol) /\
+     forall j, (j < n)%nat -> (nth j (amap sol) O < n)%nat /\ nth (nth j (amap sol) O) cuniq O = nth j runiq O) /\
+    (run_mirror = false \/ superimposable = true -> mirror sol = false) /\
+    align_coordinates sol false Cg = Ok T /\ best = rmsd_of (sumsq (lsub T Rg)) n /\
+    ((forall s, (0 <= s)%R -> rmsd_of s n = rmsd_of 0 n -> s = 0%R) -> best = rmsd_of 0 n -> T = Rg).
+Proof. exact b787_permutative_recovers_shuffled_copy. Qed.
+
+(** The composed driver raises nothing but ValidationError (shapes or label multisets differ) and the
+    AttributeError of a search that ends without a solution. *)
+Theorem C12_driver_errors :
+  forall (eigtop : mat4 R -> quat R) (katol krtol : R) (rmsd_of : R -> nat -> R) (rr cc : nat -> nat -> R) (patol prtol : R)
+         run_mirror superimposable rtc (aconv hundred : R) runiq cuniq (Rg Cg : list (vec3 R)) e,
+  length cuniq = length Cg ->
+  b787_permutative eigtop katol krtol rmsd_of rr cc patol prtol run_mirror superimposable rtc aconv hundred runiq cuniq Rg Cg = Err e ->
+  e = Validation \/ e = PyAttributeError.
+Proof. exact b787_permutative_errors. Qed.
+
+(** ---- the scramble generator: qcelemental.util.random_rotation_matrix (Gen/Rand3dRot.v, regenerated from the source) ---- *)
+(** The matrix M = (V V^T - I) . R . R_z(pi) the code builds is a proper rotation for every theta and phi and every
+    0 <= z <= 2 - i.e. for all random numbers in [0,1] and every deflection in [0,1] (next theorem): the rotations
+    Molecule.scramble applies are within the quantifier of the recovery theorems above. *)
+Theorem C12_random_rotation_is_proper :
+  forall theta phi z : R, (0 <= z <= 2)%R ->
+  proper (gen_rand_rot (sin phi) (cos phi) (sqrt z) (sqrt (2 - z)) (sin theta) (cos theta)).
+Proof. exact random_rotation_is_proper. Qed.
+
+Theorem C12_random_rotation_domain :
+  forall x3 d : R, (0 <= x3 <= 1)%R -> (0 <= d <= 1)%R -> (0 <= x3 * 2 * d <= 2)%R.
+Proof. exact rand_rot_z_domain. Qed.
+
+(** deflection = 0 gives no rotation at all *)
+Theorem C12_random_rotation_no_deflection :
+  forall phi : R, gen_rand_rot (sin phi) (cos phi) (sqrt 0) (sqrt (2 - 0)) (sin 0) (cos 0) = mid.
+Proof. exact random_rotation_no_deflection. Qed.
+
 (** ---- non-vacuity ---- *)
 (* reference (1,0,0),(0,2,0),(0,0,3) against itself: cov = diag(1,4,9), F = diag(14,-12,-6,4);
    eigh returns w = (-12,-6,4,14) and the permutation matrix V below; the top eigenvector is (1,0,0,0), U = I *)
@@ -223,6 +393,41 @@ Example C12_ex_orderings :
                       [0; 1; 1]%nat [1; 0; 1]%nat = Ok [[1; 0; 2]; [1; 2; 0]]%nat.
 Proof. vm_compute. reflexivity. Qed.
 
+(* hypotheses of C12_driver_recovers_shuffled_rigid_copy (with rmsd_of s n := s, 0 < 100, close_refl as in C12_ex_close_refl):
+   two different atoms at (+-1,0,0); the copy is lifted by (0,0,1) and its atoms are swapped *)
+Definition exdR : list (vec3 R) := [(1, 0, 0); (-1, 0, 0)]%R.
+Definition exdC : list (vec3 R) := [(-1, 0, 1); (1, 0, 1)]%R.
+Definition exdV : mat4 R := ((0, 0, 0, 1), (0, 0, 1, 0), (0, 1, 0, 0), (1, 0, 0, 0))%R.
+Example C12_ex_driver_hypotheses :
+  let Cfull := map (fun r => vadd (vmat r mid) (0, 0, 1)%R) exdR in
+  proper mid /\ gather exdC [1; 0]%nat = Ok Cfull /\
+  plausible_orderings (fun _ _ => 0%R) (fun _ _ => 0%R) 1%R (1 / 100000)%R [0; 1]%nat [1; 0]%nat = Ok [[1; 0]%nat] /\
+  eigtop_ok (fun _ => (1, 0, 0, 0)%R) (kabsch_F exdR Cfull) /\
+  allclose 0%R 0%R exdR Cfull = false.
+Proof.
+  assert (EC : map (fun r => vadd (vmat r mid) (0, 0, 1)%R) exdR = [(1, 0, 1); (-1, 0, 1)]%R).
+  { cbv [exdR map vadd vmat mid mcol ment mrow comp dot3]. runfold.
+    repeat match goal with |- cons _ _ = cons _ _ => f_equal | |- pair _ _ = pair _ _ => apply f_equal2 end; ring. }
+  cbv zeta. rewrite EC. split; [|split; [|split; [|split]]].
+  - split; cbv [mmul mtrans mid mk3 ment mrow comp vmat mcol dot3 det3]; runfold; [tuple_ring|ring].
+  - reflexivity.
+  - reflexivity.
+  - exists (-2, -2, 2, 2)%R, exdV. split; [|reflexivity].
+    assert (EF : kabsch_F exdR [(1, 0, 1); (-1, 0, 1)]%R = ((2, 0, 0, 0), (0, 2, 0, 0), (0, 0, -2, 0), (0, 0, 0, -2))%R).
+    { cbv [kabsch_F exdR centred centroid vdivs vsum length map cov_of genF madd outer vscale vadd vsub m0 v0 kdiv kofnat RDiv INR].
+      runfold. repeat match goal with |- pair _ _ = pair _ _ => apply f_equal2 end; field. }
+    rewrite EF. unfold eigh_spec.
+    cbv [exdV m4mul m4trans m4diag m4id m4col m4ent m4row qcomp m4vec qdot]. runfold. repeat split; try tuple_ring; lra.
+  - cbv [allclose exdR vclose1 close1 kleb kabs RDiv]. runfold.
+    destruct (Rle_dec (Rabs (0 - 1)) (0 + 0 * Rabs 1)) as [H|H]; [|rewrite !andb_false_r; reflexivity].
+    exfalso. assert (E1 : Rabs (0 - 1) = 1%R) by (unfold Rabs; destruct (Rcase_abs (0 - 1)); lra).
+    rewrite E1, Rabs_R1 in H. lra.
+Qed.
+
+(* random numbers 1/2 and deflection 1 are in the domain of C12_random_rotation_is_proper *)
+Example C12_ex_random_rotation_domain : (0 <= 1 / 2 * 2 * 1 <= 2)%R.
+Proof. lra. Qed.
+
 Print Assumptions C12_U_gram.
 Print Assumptions C12_U_det.
 Print Assumptions C12_U_proper.
@@ -242,3 +447,14 @@ Print Assumptions C12_true_ordering_is_a_candidate.
 Print Assumptions C12_rigid_motion_preserves_distances.
 Print Assumptions C12_translated_kabsch_align_is_model.
 Print Assumptions C12_weighted_kabsch_align_optimal.
+Print Assumptions C12_selected_solution_attains_reported_rmsd.
+Print Assumptions C12_no_solution_only_if_no_trial_below_100.
+Print Assumptions C12_selected_rmsd_is_minimal_or_converged.
+Print Assumptions C12_selected_rmsd_is_minimal_with_early_exit_refuted.
+Print Assumptions C12_kabsch_align_shortcut.
+Print Assumptions C12_kabsch_align_rotation_always_proper.
+Print Assumptions C12_driver_recovers_shuffled_rigid_copy.
+Print Assumptions C12_driver_errors.
+Print Assumptions C12_random_rotation_is_proper.
+Print Assumptions C12_random_rotation_domain.
+Print Assumptions C12_random_rotation_no_deflection.
